@@ -1,10 +1,12 @@
 #!/usr/bin/env python3
-"""Regenerate MANIFEST.json from tools/claims.json (one entry per claimed property) and properties.jsonl."""
+"""Regenerate MANIFEST.json from tools/claims/Cxx.json (one file per claimed property) and properties.jsonl."""
 import json
 import os
 
 HERE = os.path.dirname(os.path.dirname(os.path.abspath(__file__)))
-claims = json.load(open(os.path.join(HERE, "tools", "claims.json")))
+cdir = os.path.join(HERE, "tools", "claims")
+claims = json.load(open(os.path.join(cdir, "_common.json")))
+claims["claims"] = {f[:-5]: json.load(open(os.path.join(cdir, f))) for f in sorted(os.listdir(cdir)) if f.startswith("C") and f.endswith(".json")}
 props = [json.loads(l) for l in open(os.path.join(HERE, "properties.jsonl"))]
 checks = []
 na = []
